@@ -3,8 +3,7 @@ from .common import *
 from gen import fields as G
 
 
-def run(tier, only=None):
-    chk = Check('C02', tier)
+def build(tier, only, chk):
     jobs = []
     for b in bindings(only, chk):
         src, n = G.c02_writes(b)
@@ -20,6 +19,12 @@ def run(tier, only=None):
                             ['src/avtp/Utils.c'], unwind=70, unwindset=WALKER, timeout=1500,
                             meta={'descriptor': 'quadlet<4, offset=%d, bits<=64, symbolic' % off,
                                   'buffer_bytes': 28}))
+    return jobs
+
+
+def run(tier, only=None):
+    chk = Check('C02', tier)
+    jobs = build(tier, only, chk)
     chk.run(jobs)
     chk.assumptions = STD_ASSUME + [
         'dedicated setters are called with an unrestricted 64-bit value; the implicit conversion to the '
